@@ -160,8 +160,10 @@ Definition write_csv (d : Z) (rows : list (list (list Z))) : list Z := flat_map 
 (* NULL is written as the empty field *)
 Definition cell_text (c : option (list Z)) : list Z := match c with Some t => t | None => [] end.
 (* what PrintFormat::Csv / Tsv prints for string columns (header line, then the rows) *)
-Definition print_csv (d : Z) (header : list (list Z)) (rows : list (list (option (list Z)))) : list Z :=
-  write_csv d (header :: map (map cell_text) rows).
+Definition table_records (header : option (list (list Z))) (rows : list (list (option (list Z)))) : list (list (list Z)) :=
+  match header with Some h => [h] | None => [] end ++ map (map cell_text) rows.
+Definition print_csv (d : Z) (header : option (list (list Z))) (rows : list (list (option (list Z)))) : list Z :=
+  write_csv d (table_records header rows).
 
 (* an independent strict RFC-4180 style reader (LF line ends, delimiter d, quote <dq>, doubled quotes).
    States: record start, field start (after a delimiter), unquoted field, inside quotes, quote seen
@@ -290,7 +292,7 @@ Definition print_ndjson (names : list (list Z)) (rows : list (list (option (list
 (* ------------------------------------------------------------------------------------------ *)
 Inductive c51_case :=
 | CSplit (s : list Z) (got : list (list Z))
-| CCsv (d : Z) (header : list (list Z)) (rows : list (list (option (list Z)))) (got : list Z)
+| CCsv (d : Z) (header : option (list (list Z))) (rows : list (list (option (list Z)))) (got : list Z)
 | CJson (names : list (list Z)) (rows : list (list (option (list Z)))) (got : list Z)
 | CNdJson (names : list (list Z)) (rows : list (list (option (list Z)))) (got : list Z).
 
@@ -299,7 +301,7 @@ Definition c51_check (c : c51_case) : bool :=
   | CSplit s got => list_eqb zlist_eqb (split_model s) got && list_eqb zlist_eqb (ref_split s) got
   | CCsv d h rows got =>
       zlist_eqb (print_csv d h rows) got
-      && opt_eqb (list_eqb (list_eqb zlist_eqb)) (parse_csv d got) (Some (h :: map (map cell_text) rows))
+      && opt_eqb (list_eqb (list_eqb zlist_eqb)) (parse_csv d got) (Some (table_records h rows))
   | CJson n rows got => zlist_eqb (print_json n rows) got
   | CNdJson n rows got => zlist_eqb (print_ndjson n rows) got
   end.
